@@ -25,7 +25,7 @@ def _should_set_millisecond(cr, marking_type):
             return True
         else:
             return False
-    if cr.precision == 'millisecond':
+    if getattr(cr, 'precision', None) == 'millisecond':
         return True
     return False
 
